@@ -9,7 +9,7 @@ af=set(x.split('::',2)[-1] for x in b['always_fail'])
 log=open('/root/repo_test.log').read()
 failed=set(re.findall(r'^test (\S+) \.\.\. FAILED$',log,re.M)) | set(re.findall(r'^    (\S+::\S+)$',log,re.M))
 nfail=sum(int(x) for x in re.findall(r'^test result: \S+ \d+ passed; (\d+) failed',log,re.M))
-passed=len(re.findall(r'^test (\S+) \.\.\. ok',log,re.M))
+passed=sum(int(x) for x in re.findall(r'^test result: \S+ (\d+) passed',log,re.M))
 new=[f for f in failed if not any(a.endswith(f) for a in af)]
 print('passed',passed,'failed (by name)',len(failed),'failed (cargo totals)',nfail,'unexpected failures:',new)
 if 'error: could not compile' in log or 'error[' in log: print('COMPILE ERROR')
